@@ -57,9 +57,23 @@ def _run(ctx, ncases, nsteps):
       xml = xml.replace("<option ", '<option><flag sleep="enable"/></option>\n  <option ')
     try:
       mjm = mujoco.MjModel.from_xml_string(xml)
+      if not wide and c % 3 != 2:
+        # two cases in three carry 2-5 actuators with velocity feedback on joints of every type (free/ball joints give moment rows with
+        # several nonzeros): the sparse actuator-moment rows are slots handed out by wp.atomic_add in `_transmission`, i.e. in task order,
+        # and every consumer (actuator_velocity, actuator force -> qfrc_actuator, derivatives) must not care where a row landed
+        jn = [mujoco.mj_id2name(mjm, mujoco.mjtObj.mjOBJ_JOINT, j) for j in range(mjm.njnt)]
+        jn = [x for x in jn if x]
+        if jn:
+          acts = "".join(f'<general joint="{rng.choice(jn)}" gear="{rng.uniform(0.5, 2):.2f} {rng.uniform(-1, 1):.2f} {rng.uniform(-1, 1):.2f} 0.3 -0.2 0.1" gainprm="{rng.uniform(1, 3):.2f}" '
+                         f'biastype="affine" biasprm="0 {-rng.uniform(0, 2):.2f} {-rng.uniform(0.5, 3):.2f}"/>' for _ in range(int(rng.integers(2, 6))))
+          xml = xml.replace("</mujoco>", f"<actuator>{acts}</actuator>\n</mujoco>")
+          mjm = mujoco.MjModel.from_xml_string(xml)
     except ValueError:
       continue
     mjd = mujoco.MjData(mjm)
+    if mjm.nu:
+      mjd.ctrl[:] = rng.normal(size=mjm.nu)
+      acc.hit("actuators")
     if wide:
       mjd.qvel[:] = rng.normal(size=mjm.nv) * 0.3
     else:
@@ -77,7 +91,8 @@ def _run(ctx, ncases, nsteps):
       for _ in range(nsteps):
         mjw.step(m, d)
         out.append((d.qpos.numpy().copy(), d.qvel.numpy().copy(), [world_contacts(d, w) for w in range(nworld)], d.nefc.numpy().copy(),
-                    d.tree_asleep.numpy().copy() if sleep else None, d.overflow.numpy().copy()))
+                    d.tree_asleep.numpy().copy() if sleep else None, d.overflow.numpy().copy(),
+                    np.concatenate([d.actuator_velocity.numpy(), d.actuator_length.numpy(), d.actuator_force.numpy(), d.qfrc_actuator.numpy()], axis=1)))
       sched.set_order("id")
       return out
     ref = run("id")
@@ -103,6 +118,11 @@ def _run(ctx, ncases, nsteps):
         if not (np.allclose(a[0], b[0], rtol=2e-4, atol=2e-4 * scale) and np.allclose(a[1], b[1], rtol=2e-3, atol=2e-3 * scale)):
           acc.find(f"state after step {s} depends on the task order '{order}' (max |dqpos| {np.abs(a[0] - b[0]).max():.3g}, |dqvel| {np.abs(a[1] - b[1]).max():.3g})", "forward.step",
                    "order-dependence", xml=xml, order=order, step=s, sleep=sleep, qpos=mjd.qpos.tolist(), qvel=mjd.qvel.tolist())
+          break
+        if a[6].size and not np.allclose(a[6], b[6], rtol=1e-3, atol=1e-4 * (1 + np.abs(a[6]).max())):
+          # intermediate actuator quantities: a wrong velocity feedback moves qvel by only h * dforce / inertia per step
+          acc.find(f"actuator length/velocity/force or qfrc_actuator after step {s} depend on the task order '{order}' (max diff {np.abs(a[6] - b[6]).max():.3g})", "forward.fwd_actuation",
+                   "order-actuation", xml=xml, order=order, step=s, sleep=sleep, qpos=mjd.qpos.tolist(), qvel=mjd.qvel.tolist(), ctrl=mjd.ctrl.tolist())
           break
         if not np.array_equal(a[3], b[3]):
           acc.find(f"nefc after step {s} depends on the task order '{order}'", "constraint.make_constraint", "order-nefc", xml=xml, order=order, step=s)
